@@ -259,6 +259,62 @@ func c15R1(c *Ctx) {
 				}
 			}
 		})
+		// the look-up in a shared helper: `requiredOneOfKey(data, "one_of", path)` returns an error when the key is missing,
+		// and the call site propagates it
+		eachInstr(fn, func(r instrRef) {
+			call, ok := r.I.(*ssa.Call)
+			if !ok {
+				return
+			}
+			h := call.Common().StaticCallee()
+			if h == nil || !isRepoFn(h) || len(h.Blocks) == 0 {
+				return
+			}
+			for ai, a := range call.Common().Args {
+				k, isC := constString(a)
+				if !isC || ai >= len(h.Params) {
+					continue
+				}
+				if _, want := need[k]; !want {
+					continue
+				}
+				refuses := false
+				eachInstr(h, func(r2 instrRef) {
+					mk, ok := r2.I.(*ssa.Call)
+					if !ok || !mk.Common().IsInvoke() || mk.Common().Method.Name() != "MapKey" || mk.Common().Args[0] != ssa.Value(h.Params[ai]) {
+						return
+					}
+					for _, ref := range *mk.Referrers() {
+						ex, ok := ref.(*ssa.Extract)
+						if !ok || ex.Index != 1 || ex.Referrers() == nil {
+							continue
+						}
+						for _, r3 := range *ex.Referrers() {
+							ifi, ok := r3.(*ssa.If)
+							if !ok {
+								continue
+							}
+							p := c.findPathFrom(ifi.Block().Succs[1], 0, func(in ssa.Instruction) bool {
+								ret, ok := in.(*ssa.Return)
+								if !ok {
+									return false
+								}
+								res := retResults(ret)
+								return len(res) > 0 && !isNilConst(res[len(res)-1])
+							}, isReturn)
+							if p == nil {
+								refuses = true
+							}
+						}
+					}
+				})
+				if refuses {
+					if okc, _ := c.errorPropagated(call); okc {
+						need[k] = true
+					}
+				}
+			}
+		})
 		c.verdict(need["discriminator"] && need["one_of"], rule, "oneof-required-keys", c.pos(fn.Pos()), "`discriminator` and `one_of` are required", fmt.Sprintf("!oneof does not require both keys (%v)", need))
 	}
 }
